@@ -246,9 +246,8 @@ def run_wave(chk, tier, rng, seed):
         chk.violation("spec:GradRBM:" + str(res.violation), dict(tlc=res.raw[-4000:]))
         return []
     exps = res.exports
-    if quick:
-        enum = [e for e in exps if e["idx"] == 0]
-        exps = [e for e in exps if e["idx"] > 0] + rng.sample(enum, min(100, len(enum)))
+    enum = [e for e in exps if e["idx"] == 0]        # TLC checked all of them; a seeded sample is replayed
+    exps = [e for e in exps if e["idx"] > 0] + rng.sample(enum, min(100 if quick else 2500, len(enum)))
     tables = {}
     for n, e in enumerate(exps):
         if e["nv"] not in tables:
@@ -423,9 +422,8 @@ def run_dm(chk, tier, rng, seed):
         chk.violation("spec:GradDM:" + str(res.violation), dict(tlc=res.raw[-4000:]))
         return []
     exps = res.exports
-    if quick:
-        enum = [e for e in exps if e["idx"] == 0]
-        exps = [e for e in exps if e["idx"] > 0] + rng.sample(enum, min(60, len(enum)))
+    enum = [e for e in exps if e["idx"] == 0]
+    exps = [e for e in exps if e["idx"] > 0] + rng.sample(enum, min(60 if quick else 1200, len(enum)))
     tables = {}
     for n, e in enumerate(exps):
         nv = e["pt"]["nv"]
